@@ -199,7 +199,9 @@ def check_discovery(case: dict):
         h = {"ip": "10.0.0.77", "id": dev_id | (case.get("hi", 0) << 48), "port": case.get("port", 6444), "sn": "S" * 32, "tt": case.get("tt", 0xAC), "suffix": "ABCD", "version": 3,
              "listen_port": 6445, "extra": bytes(8).hex()}
         dev = SimDevice(loop, version=3, device_id=dev_id, token=token, key=key, ac=ModelAC())
-        dev.silent_on_bad_token = bool(case.get("silent"))     # firmware that ignores a handshake with a wrong token instead of answering ERROR
+        dev.silent_on_bad_token = bool(case.get("silent")) and case.get("silent") != "slow"     # firmware that ignores a handshake with a wrong token instead of answering ERROR
+        if case.get("silent") == "slow":
+            dev.bad_token_delay = 6.2        # ... or answers ERROR only after the client has given up on that handshake (3 x 2 s)
         net.listen(h["ip"], h["port"], dev)
         # further V3 devices answering the same discovery (their cloud logins / token requests overlap in time)
         world_hosts = [dict(ip=h["ip"], listen_port=6445, replies=[(0.05, 6445, discsim.good_reply(h))])]
@@ -410,7 +412,7 @@ def run(ctx) -> None:
     ctx.hyp("token", token_cases, lambda c: _run_one(ctx, c), ctx.n(3200, 160000))
     disc_cases = st.fixed_dictionaries({"leg": st.just("discovery"), "id": gens.device_ids(48).filter(lambda i: i.to_bytes(6, "little") != i.to_bytes(6, "big")),
                                         "endian": st.sampled_from(["little", "big"]), "port": st.sampled_from([6444, 6444, 7000])},
-                                       optional={"silent": st.booleans(), "strict": st.sampled_from([None, "api", "empty"]), "hi": st.sampled_from([0, 0, 1, 0xFFFF, 0x8000]), "tt": st.sampled_from([0xAC, 0xAC, 0xA1, 0xE1, 0x00, 0xFF]),
+                                       optional={"silent": st.sampled_from([False, True, "slow"]), "strict": st.sampled_from([None, "api", "empty"]), "hi": st.sampled_from([0, 0, 1, 0xFFFF, 0x8000]), "tt": st.sampled_from([0xAC, 0xAC, 0xA1, 0xE1, 0x00, 0xFF]),
                                                  "more": st.lists(st.fixed_dictionaries({"id": gens.device_ids(48).filter(lambda i: i.to_bytes(6, "little") != i.to_bytes(6, "big")),
                                                                                          "endian": st.sampled_from(["little", "big"]), "stagger": st.sampled_from([0, 1, 30, 200])},
                                                                                         optional={"hi": st.sampled_from([0, 1, 0xFFFF]), "tt": st.sampled_from([0xAC, 0xA1, 0xFF])}), max_size=2),
@@ -441,4 +443,14 @@ def run(ctx) -> None:
                             "more": [{"id": 0x00112233AA00 + g, "endian": "little", "stagger": 1, "hi": hi ^ 0xFFFF if g % 2 else 0, "tt": 0xAC if tt != 0xAC else 0xA1}]}
                     ctx.check(case, lambda c: _run_one(ctx, c))
     ctx.sweep("appliance type x bytes above the id x byte order (with a second device of another kind)", g, True)
+    # firmware that rejects an unknown token only after 6.2 s (the client has given up on that handshake by then): the late ERROR must
+    # not be taken for the answer to the next byte order's handshake
+    sl = 0
+    for dev_id in (0x0000A1B2C3D4, 0x123456789ABC, 15393162840672):
+        for endian in ("big", "little"):
+            for tt in (0xAC, 0xA1):
+                sl += 1
+                if ctx.mine(sl):
+                    ctx.check({"leg": "discovery", "id": dev_id, "endian": endian, "port": 6444, "silent": "slow", "tt": tt}, lambda c: _run_one(ctx, c))
+    ctx.sweep("slow rejection of the wrong byte order's token x ids x byte order x type", sl, True)
     ctx.hyp("discovery", disc_cases, lambda c: _run_one(ctx, c), ctx.n(600, 32000))
